@@ -3,6 +3,7 @@
 mod cfgcase;
 mod chain;
 mod gens;
+mod space;
 mod stat;
 mod util;
 mod warm;
@@ -75,6 +76,15 @@ fn main() {
             let mut out = Out::create(a.get("out"));
             let parse = |s: &str| -> Vec<u64> { s.split(',').map(|x| x.parse().unwrap()).collect() };
             cfgcase::grid(&parse(a.get_or("counts", "0,1,2,3,4,7,20")), &parse(a.get_or("intervals", "0,500,999,1000,1500,2000,10000")), &mut out);
+            println!("events={}", out.lines);
+            out.finish();
+        }
+        "space-worker" => {
+            space::worker(a.get("in"), a.num("from", 0) as usize, a.num("to", u32::MAX as u64) as usize);
+        }
+        "space-run" => {
+            let mut out = Out::create(a.get("out"));
+            space::run(a.get("in"), a.num("jobs", 12) as usize, &mut out);
             println!("events={}", out.lines);
             out.finish();
         }
